@@ -159,6 +159,18 @@ def ints_da_equal_chunk_offsets(items, arr):
     return False
 
 
+def int_before_none(items):
+    """An integer index is written before a None: the position of the new axis in the index differs from its position in
+    the result (slice_with_newaxes keeps two position lists for that)."""
+    seen_int = False
+    for it in items:
+        if it["k"] in ("int", "int0d"):
+            seen_int = True
+        elif it["k"] == "none" and seen_int:
+            return True
+    return False
+
+
 def neg_step_on_zero_chunk_axis(items, arr, mode):
     if mode == "blocks":
         return False
@@ -197,6 +209,7 @@ def check_getitem(case):
     sig["advanced_nonadjacent"] = C.advanced_nonadjacent(items)
     sig["none_with_dask_indexer"] = C.none_with_dask_indexer(items)
     sig["none_with_np_indexer"] = C.none_with_np_indexer(items)
+    sig["int_before_none"] = int_before_none(items)
     sig["ints_da_equal_chunk_offsets"] = ints_da_equal_chunk_offsets(items, arr)
     what = f"x{arr['shape']}chunks={arr['chunks']}[{describe_index(items)}]"
     status, want = reference(lambda: x[nidx])
@@ -357,7 +370,7 @@ def check(case):
         return _check(case)
     except Violation as v:
         # `raises` separates crashes from wrong answers in known-finding matches that cannot name a single exception type
-        v.sig["raises"] = str(v.sig.get("symptom", "")).startswith("raises:")
+        v.sig["raises"] = str(v.sig.get("symptom", "")).startswith(("raises:", "oob-raises:"))
         raise
 
 
